@@ -133,3 +133,17 @@ PROPS["C16"] = {
     ],
     "assumptions": ["global variable names and item field names are disjoint; variable names are not 'this' or 'else'"],
 }
+
+PROPS["C17"] = {
+    "n": {"quick": 600, "thorough": 12000},
+    "per_shard": 40,
+    "race": True,
+    "corr_targets": ["Corr/EngineCorr.vo"],
+    "corr": "Corr/EngineCorr.v: Model.Engine.run (cache of immutable templates, inheritance chain, block replacement, the passes of Model/Template.v) vs a TemplateEngine driven through the same history of LoadTemplate / RenderToDocument / RemoveTemplate / ClearCache calls: every render result",
+    "trusted_base": [
+        "Model/Engine.v is hand-written from template.go (LoadTemplate, parseTemplate, renderTemplate); its block and extends scanners mirror the engine's regular expressions",
+        "data races are not expressible in the model: concurrent plans (threads with their own names, shared read-only bases and a shared document template) run in a child process built with -race; the race detector's report is the observation",
+        "document templates (LoadTemplateFromDocument / RenderTemplateToDocument) are covered by the oracle only: deep dump of the base document before and after every render, every render compared with a fresh engine",
+    ],
+    "assumptions": ["in the concurrent plans no thread calls ClearCache or rebinds a name another thread reads (the premise of C17_noninterference)"],
+}
